@@ -1,13 +1,13 @@
-(* C10, clause (c): in vacuum (I2 = 0 and p2 = 0 everywhere) the grad grad B tensor is symmetric in its last two indices and
-   harmonic.  Assembles props/C10_vacuum_Bt_{a,b,c}.v, props/C10_vacuum_ode_{a,b}.v and the tangent slice (re-proved here from C10_common). *)
+(* C10, vacuum clause (c), entries with the tangential field component, part c: G012 = G021 and G102 = G120.
+   Substitution chain (X2s, X2c, B20, G2, Z2*, sigma equation and its derivative) + field. *)
 From Coq Require Import Reals String List Lra Lia QArith Qreals FunctionalExtensionality.
 From QSC Require Import Expr Shallow.
 From QSCGen Require Import G_init_axis G_r1_diagnostics G_calculate_r2 G_residual G_calculate_grad_grad_B_tensor.
-From QSCProps Require Import C10_spec C10_common C10_vacuum_common C10_vacuum_Bt_a C10_vacuum_Bt_b C10_vacuum_Bt_c C10_vacuum_ode_a C10_vacuum_ode_b.
+From QSCProps Require Import C10_spec C10_common C10_vacuum_common.
 Open Scope R_scope.
 Open Scope string_scope.
 
-Section Vacuum.
+Section Bt.
   Context {I : Type} (O : ops I) (HD : derivation O) (S VA V1 V2 : string -> I -> R).
   Hypothesis Hadm : admissible S.
   Hypothesis HA : stage O init_axis S VA.
@@ -93,67 +93,38 @@ Section Vacuum.
   Local Notation sigE := (C10_common.sigE S).
   Local Notation sigE2 := (C10_common.sigE2 S).
   Hypothesis Hvac : vacuum_hyp S.
-  Hypothesis Hode : r2_solved V2.
-  Ltac close2 i := rewrite ?S_d2Y1c, ?S_dY1c; close i.
-  Lemma sl_201 : forall i, S "s.grad_grad_B_2_0_1" i = S "s.grad_grad_B_2_1_0" i.
-  Proof. intros i; gg_entry "s.grad_grad_B_2_0_1" "grad_grad_B_2_0_1#2"; gg_entry "s.grad_grad_B_2_1_0" "grad_grad_B_2_1_0#2"; gg_locals; to_state HG; close2 i. Qed.
-  Lemma sl_202 : forall i, S "s.grad_grad_B_2_0_2" i = S "s.grad_grad_B_2_2_0" i.
-  Proof. intros i; gg_entry "s.grad_grad_B_2_0_2" "grad_grad_B_2_0_2#2"; gg_entry "s.grad_grad_B_2_2_0" "grad_grad_B_2_2_0#2"; gg_locals; to_state HG; close2 i. Qed.
-  Lemma sl_212 : forall i, S "s.grad_grad_B_2_1_2" i - S "s.grad_grad_B_2_2_1" i = 2 * sG i * spsi i * S "s.I2" i * kap i.
-  Proof. intros i; gg_entry "s.grad_grad_B_2_1_2" "grad_grad_B_2_1_2#2"; gg_entry "s.grad_grad_B_2_2_1" "grad_grad_B_2_2_1#2"; gg_locals; to_state HG; close2 i. Qed.
-
-  Theorem C10_vacuum_Bt : vacuum_Bt_part S.
-  Proof.
-    intros i.
-    pose proof (C10_vacuum_Bt_a O HD S VA V1 V2 Hadm HA H1 H2 VG HG Hcst VR HR Hsig Hvac i) as A.
-    destruct (C10_vacuum_Bt_b O HD S VA V1 V2 Hadm HA H1 H2 VG HG Hcst VR HR Hsig Hvac i) as (B1 & B2).
-    destruct (C10_vacuum_Bt_c O HD S VA V1 V2 Hadm HA H1 H2 VG HG Hcst VR HR Hsig Hvac i) as (C1 & C2).
-    repeat split; assumption.
-  Qed.
-  Theorem C10_vacuum_ode : vacuum_ode_part S.
-  Proof.
-    intros i.
-    destruct (C10_vacuum_ode_a O HD S VA V1 V2 Hadm HA H1 H2 VG HG Hcst VR HR Hsig Hvac Hode i) as (A1 & A2).
-    destruct (C10_vacuum_ode_b O HD S VA V1 V2 Hadm HA H1 H2 VG HG Hcst VR HR Hsig Hvac Hode i) as (B1 & B2).
-    repeat split; assumption.
-  Qed.
-
-  Theorem C10_sym23 : sym23 S.
-  Proof.
-    intros i a b c Ha Hb Hc.
-    destruct (C10_vacuum_Bt i) as (B1 & B2 & B3 & B4 & _).
-    destruct (C10_vacuum_ode i) as (D1 & D2 & _).
-    pose proof (sl_201 i) as T1. pose proof (sl_202 i) as T2. pose proof (sl_212 i) as T3.
-    rewrite (proj1 Hvac) in T3. unfold G in *. cbn [dg append] in *.
-    destruct a as [|[|[|a]]]; try lia; destruct b as [|[|[|b]]]; try lia; destruct c as [|[|[|c]]]; try lia;
-      cbn [dg append]; first [reflexivity|assumption|symmetry; assumption|lra].
-  Qed.
-  Theorem C10_harmonic : harmonic S.
-  Proof.
-    intros i c Hc.
-    destruct (C10_vacuum_Bt i) as (_ & _ & _ & _ & B5).
-    destruct (C10_vacuum_ode i) as (_ & _ & D3 & D4).
-    destruct c as [|[|[|c]]]; try lia; assumption.
-  Qed.
-End Vacuum.
-
-(* clause (c) of the property, closed form *)
-Theorem C10_vacuum :
-  forall (I : Type) (O : ops I), derivation O ->
-  forall S VA V1 V2 VG VR : string -> I -> R,
-    admissible S -> constants S -> vacuum_hyp S ->
-    stage O init_axis S VA ->
-    stage O r1_diagnostics_h0 S V1 \/ stage O r1_diagnostics_hN S V1 ->
-    stage O calculate_r2_h0 S V2 \/ stage O calculate_r2_hN S V2 -> r2_solved V2 ->
-    stage O residual S VR -> sigma_solved O S VR ->
-    stage O calculate_grad_grad_B_tensor S VG ->
-    sym23 S /\ harmonic S.
-Proof.
-  intros I O HD S VA V1 V2 VG VR Hadm Hcst Hvac HA H1 H2 Hode HR Hsig HG. split.
-  - exact (C10_sym23 O HD S VA V1 V2 Hadm HA H1 H2 VG HG Hcst VR HR Hsig Hvac Hode).
-  - exact (C10_harmonic O HD S VA V1 V2 Hadm HA H1 H2 VG HG Hcst VR HR Hsig Hvac Hode).
-Qed.
-Check C10_sym23. Check C10_harmonic. Check C10_vacuum.
-Print Assumptions C10_sym23.
-Print Assumptions C10_harmonic.
-Print Assumptions C10_vacuum.
+  Local Notation Dv_fold := (C10_vacuum_common.Dv_fold O HD S VA V1 V2 Hadm HA H1 H2 Hcst VR HR Hsig Hvac).
+  Local Notation F_Z20 := (C10_vacuum_common.F_Z20 O HD S VA V1 V2 Hadm HA H1 H2 Hcst VR HR Hsig Hvac).
+  Local Notation F_Z2s := (C10_vacuum_common.F_Z2s O HD S VA V1 V2 Hadm HA H1 H2 Hcst VR HR Hsig Hvac).
+  Local Notation F_Z2c := (C10_vacuum_common.F_Z2c O HD S VA V1 V2 Hadm HA H1 H2 Hcst VR HR Hsig Hvac).
+  Local Notation R_dZ20 := (C10_vacuum_common.R_dZ20 O HD S VA V1 V2 Hadm HA H1 H2 Hcst VR HR Hsig Hvac).
+  Local Notation R_dZ2s := (C10_vacuum_common.R_dZ2s O HD S VA V1 V2 Hadm HA H1 H2 Hcst VR HR Hsig Hvac).
+  Local Notation R_dZ2c := (C10_vacuum_common.R_dZ2c O HD S VA V1 V2 Hadm HA H1 H2 Hcst VR HR Hsig Hvac).
+  Local Notation F_X2s := (C10_vacuum_common.F_X2s O HD S VA V1 V2 Hadm HA H1 H2 Hcst VR HR Hsig Hvac).
+  Local Notation F_X2c := (C10_vacuum_common.F_X2c O HD S VA V1 V2 Hadm HA H1 H2 Hcst VR HR Hsig Hvac).
+  Local Notation F_B20 := (C10_vacuum_common.F_B20 O HD S VA V1 V2 Hadm HA H1 H2 Hcst VR HR Hsig Hvac).
+  Local Notation F_G2 := (C10_vacuum_common.F_G2 O HD S VA V1 V2 Hadm HA H1 H2 Hcst VR HR Hsig Hvac).
+  Local Notation F_I2 := (C10_vacuum_common.F_I2 O HD S VA V1 V2 Hadm HA H1 H2 Hcst VR HR Hsig Hvac).
+  Local Notation F_p2 := (C10_vacuum_common.F_p2 O HD S VA V1 V2 Hadm HA H1 H2 Hcst VR HR Hsig Hvac).
+  Local Notation qs_ := (C10_vacuum_common.qs_ S).
+  Local Notation qc_ := (C10_vacuum_common.qc_ S).
+  Local Notation rs_ := (C10_vacuum_common.rs_ S).
+  Local Notation rc_ := (C10_vacuum_common.rc_ S).
+  Notation tau := (S "s.torsion"). Notation iotaN := (S "s.iotaN").
+  Notation dX1c := (S "s.d_X1c_d_varphi"). Notation dY1s := (S "s.d_Y1s_d_varphi"). Notation dY1c := (S "s.d_Y1c_d_varphi").
+  Notation d2X1c := (S "s.d2_X1c_d_varphi2"). Notation d2Y1s := (S "s.d2_Y1s_d_varphi2"). Notation d2Y1c := (S "s.d2_Y1c_d_varphi2").
+  (* substitution chain down to X1c, Y1c, torsion, X20, Y20 (and their derivatives) *)
+  Ltac vsub1 := rewrite ?R_dY2s, ?R_dY2c, ?R_Y2s, ?R_Y2c, ?F_B20, ?F_G2.
+  Ltac vsubX := rewrite ?F_X2s, ?F_X2c.
+  Ltac vsub2 i :=
+    rewrite ?R_dZ20, ?R_dZ2s, ?R_dZ2c, ?F_Z20, ?F_Z2s, ?F_Z2c; unfold C10_vacuum_common.qc_, C10_vacuum_common.qs_, C10_vacuum_common.rc_, C10_vacuum_common.rs_;
+    rewrite ?S_d2Y1c, ?S_dY1c, ?S_d2Y1s, ?S_dY1s, ?S_Y1s, ?S_dkap, ?S_kap, ?F_absG0, ?F_G0; rewrite ?F_I2, ?F_p2.
+  Ltac vfin i := pose proof (adm_sG S Hadm i) as Es; pose proof (adm_spsi S Hadm i) as Ep; qsimp; field [Es Ep]; nz.
+  Ltac vdirect i := vsub1; vsubX; vsub2 i; vfin i.
+  Lemma vs_012 : forall i, S "s.grad_grad_B_0_1_2" i = S "s.grad_grad_B_0_2_1" i.
+  Proof. intros i; gg_entry "s.grad_grad_B_0_1_2" "grad_grad_B_0_1_2#2"; gg_entry "s.grad_grad_B_0_2_1" "grad_grad_B_0_2_1#2"; gg_locals; to_state HG. vdirect i. Qed.
+  Lemma vs_102 : forall i, S "s.grad_grad_B_1_0_2" i = S "s.grad_grad_B_1_2_0" i.
+  Proof. intros i; gg_entry "s.grad_grad_B_1_0_2" "grad_grad_B_1_0_2#2"; gg_entry "s.grad_grad_B_1_2_0" "grad_grad_B_1_2_0#2"; gg_locals; to_state HG. vdirect i. Qed.
+  Theorem C10_vacuum_Bt_c : vacuum_Bt_c S.
+  Proof. intros i. unfold G. split; [apply vs_012|apply vs_102]. Qed.
+End Bt.
